@@ -65,6 +65,14 @@ def tie_diffs():
     cur_s = json.load(open(os.path.join(GEN, "shapes.json")))
     for k in sorted(set(exp_s) | set(cur_s)):
         if exp_s.get(k) != cur_s.get(k): diffs.append("shape:" + k)
+    exp_f = json.load(open(os.path.join(EXPECTED, "fns.json")))
+    cur_f = json.load(open(os.path.join(GEN, "fns.json")))
+    for k in sorted(set(exp_f) | set(cur_f)):
+        if exp_f.get(k) != cur_f.get(k): diffs.append("fn:" + k)
+    exp_p = open(os.path.join(EXPECTED, "panic_sites_apps.txt")).read().split("\n")
+    cur_p = open(os.path.join(GEN, "panic_sites_apps.txt")).read().split("\n")
+    for l in sorted(set(cur_p) - set(exp_p)): diffs.append("panicapps:new site " + l[:120])
+    for l in sorted(set(exp_p) - set(cur_p)): diffs.append("panicapps:removed site " + l[:120])
     return diffs
 
 def build_harness(features=None, target="release-std"):
